@@ -418,13 +418,30 @@ entry lacks (a shorter list) stays missing (`row.get(col)`) -/
 def rowFor (mcols : List String) (m : MdE) : List String :=
   mcols.map (fun c => (lookupBy (entryColumns m) (entryRow m) c).getD missing)
 
-/-- `metadata_to_dataframe`: the column names are those of the longest expansion seen (first wins),
-every value goes under its own column -/
+/-- what the layout pass records about one (key, value): list-valued?, length -/
+def itemShape (kv : String × MdVal) : String × Bool × Nat :=
+  match kv.2 with
+  | .scalar _ => (kv.1, false, 0)
+  | .list xs => (kv.1, true, xs.length)
+
+/-- one step of the layout pass over the insertion-ordered dicts `expand` / `widths`: a new key is
+appended; a known key keeps its place, takes the list-ness seen last and the larger width -/
+def widthsStep (w : List (String × Bool × Nat)) (it : String × Bool × Nat) : List (String × Bool × Nat) :=
+  if w.any (fun e => e.1 == it.1) then
+    w.map (fun e => if e.1 == it.1 then (e.1, it.2.1, if it.2.1 then max e.2.2 it.2.2 else e.2.2) else e)
+  else w ++ [it]
+
+def colsOfShape (w : List (String × Bool × Nat)) : List String :=
+  w.flatMap (fun e => if e.2.1 then (List.range e.2.2).map (fun i => e.1 ++ "_" ++ toString i) else [e.1])
+
+/-- `metadata_to_dataframe` (cc0c0aa1): keys in first-seen order over the entries in axis order, a
+list-valued category gets one column per element of its LONGEST list, every value goes under its
+own column, a position an entry lacks stays missing -/
 def mdFrameM (ids : List Id) (md : Option (List MdE)) : Except Err MdFrame :=
   match md with
   | none => .error .key
   | some es =>
-    let mcols := es.foldl (fun acc m => let c := entryColumns m; if c.length > acc.length then c else acc) []
+    let mcols := colsOfShape ((es.flatMap (·.map itemShape)).foldl widthsStep [])
     .ok { index := ids, columns := mcols, rows := es.map (rowFor mcols) }
 
 /-! ## The property, on observations only -/
